@@ -109,7 +109,24 @@ def fresh_keys(rng, n):
     ks = {}
     for i in range(1, n + 1):
         g = "%08x-%04x-%04x-%04x-%012x" % (rng.getrandbits(32), rng.getrandbits(16), rng.getrandbits(16), rng.getrandbits(16), rng.getrandbits(48))
-        ks[i] = (g, "%064x" % rng.getrandbits(256))
+        # key ids are OPAQUE strings issued by the host (the model compares them byte for byte): besides the
+        # usual lower-case guid, upper case, mixed case, no dashes, and non-guid tokens (no dot -- `set_extension("key")` would cut the id at its last dot --, file-name / URL-path /
+        # header safe: the id is also <id>.key and a path segment of the attestation URL)
+        shape = rng.choice(["lower", "upper", "mixed", "mixed", "nodash", "token"])
+        if shape == "upper":
+            g = g.upper()
+        elif shape == "mixed":
+            g = "".join(c.upper() if rng.random() < 0.5 else c for c in g)
+            if g == g.lower():
+                g = "A" + g[1:]
+        elif shape == "nodash":
+            g = g.replace("-", "").upper()
+        elif shape == "token":
+            g = "Key_%s_%d-%s" % ("".join(rng.choice("ABCDEFGHxyz") for _ in range(6)), i, "".join(rng.choice("0123456789abcdefXYZ") for _ in range(8)))
+        v = "%064x" % rng.getrandbits(256)
+        if rng.random() < 0.3:
+            v = v.upper()       # hex::decode accepts both cases; the secret's spelling is the host's too
+        ks[i] = (g, v)
     return ks
 
 
